@@ -1,12 +1,381 @@
-"""C08: structural clauses (see DESIGN.md section 4)."""
+"""C08 SpecAugment: forwarding (G5/G1), parameter-tuple slot roles (G2), eval identity (G9),
+mask-only path / fill value (G10/G16), time<->frequency sibling symmetry and draw forms (G12)."""
 from __future__ import annotations
 
+import ast
+import copy
+import re
+from typing import Dict, Optional
+
 from rules import fwd as R_fwd
+from sa.astutil import call_name, guards_of, kwarg, parent_map, u
+from sa.defuse import ReachingDefs
+from sa.model import AnalysisError, own_calls, own_nodes
+from sa.norm import Normalizer, pstr
+from sa.paths import PathEnumerator
+from sa.resolve import bind_args
 from .common import Ctx, plumbing
+
+MOD = "_img"
+WRAPPERS = {"spec_augment_draw_parameters", "spec_augment_apply_parameters", "spec_augment", "warp_1d_grid",
+            "polyharmonic_spline", "dense_image_warp", "sparse_image_warp"}
+
+
+class _Strip(ast.NodeTransformer):
+    """Remove shape/device no-ops so that tensor-valued and scalar-valued siblings compare: x.unsqueeze(k) -> x,
+    x.to(device) -> x, torch.rand(...) -> RAND, clamp(x, lo, hi) -> min(max(x, lo), hi)."""
+
+    def visit_Call(self, node):
+        self.generic_visit(node)
+        f = node.func
+        if isinstance(f, ast.Attribute) and f.attr in ("unsqueeze", "to", "float") and not call_name(node).startswith("torch."):
+            return f.value
+        if call_name(node) in ("torch.rand",):
+            return ast.Name(id="RAND", ctx=ast.Load())
+        if isinstance(f, ast.Attribute) and f.attr == "clamp" and len(node.args) == 2 and not call_name(node).startswith("torch."):
+            return ast.Call(func=ast.Name(id="min", ctx=ast.Load()), args=[
+                ast.Call(func=ast.Name(id="max", ctx=ast.Load()), args=[f.value, node.args[0]], keywords=[]), node.args[1]], keywords=[])
+        if call_name(node) == "torch.clamp" and node.args and kwarg(node, "max") is not None and kwarg(node, "min") is None:
+            return ast.Call(func=ast.Name(id="min", ctx=ast.Load()), args=[node.args[0], kwarg(node, "max")], keywords=[])
+        return node
+
+
+def _canon(e: ast.AST, ren: Dict[str, str]) -> str:
+    e2 = _Strip().visit(copy.deepcopy(e))
+    ast.fix_missing_locations(e2)
+    nz = Normalizer(rename=lambda s: ren.get(s, s))
+    return nz.expr_str(e2)
 
 
 def run(ctx: Ctx):
-    plumbing(ctx, 'S1')
-    R_fwd.g5_module_pairs(ctx.pkg, ctx.res, ctx.col, only=['dense_image_warp', 'polyharmonic_spline', 'sparse_image_warp', 'spec_augment', 'spec_augment_apply_parameters', 'spec_augment_draw_parameters', 'warp_1d_grid'], clause='S1')
-    ctx.col.floor('g5_pairs', ctx.col.counts.get('g5_pairs', 0), 6)
-    return dict(explanation='plumbing clauses only (work in progress)', decided=['S1'], not_decided=[])
+    col, pkg, res = ctx.col, ctx.pkg, ctx.res
+    rel = pkg.module(MOD).relname
+    draw = pkg.func(f"{MOD}::spec_augment_draw_parameters")
+    app = pkg.func(f"{MOD}::spec_augment_apply_parameters")
+    sa = pkg.func(f"{MOD}::spec_augment")
+    fwd = pkg.func(f"{MOD}::SpecAugment.forward")
+
+    # ---- S1 forwarding -------------------------------------------------------------------------------------
+    R_fwd.g5_module_pairs(pkg, res, col, only=WRAPPERS, clause="S1")
+    col.floor("g5_pairs", col.counts.get("g5_pairs", 0), 6)
+    for f, callee in ((sa, draw), (sa, app)):
+        cs = [c for c in own_calls(f.node) if call_name(c) == callee.name]
+        if len(cs) != 1:
+            raise AnalysisError(f"C08: spec_augment does not call {callee.name} once")
+        b = bind_args(cs[0], callee, False)
+        for p, a, _ in b.pairs:
+            ok = u(a) == p.name or (p.name == "params" and isinstance(a, ast.Name))
+            col.ob("G1", "S1", f"{rel}::spec_augment::{callee.name}({p.name}<-{u(a)})", ok,
+                   f"`{p.name}` of {callee.name} receives `{u(a)}` (the ten configuration values are mutually "
+                   f"transposable numbers)", rel, cs[0].lineno, sample=dict(formal=p.name, arg=u(a)))
+    # SpecAugment.forward composes draw + apply like spec_augment (sibling): same callee sequence, same eval gate
+    seq_f = [c.func.attr for c in own_calls(fwd.node) if isinstance(c.func, ast.Attribute) and u(c.func.value) == "self"
+             and c.func.attr in ("draw_parameters", "apply_parameters")]
+    col.ob("G5", "S1", f"{rel}::SpecAugment.forward::draw-then-apply", seq_f == ["draw_parameters", "apply_parameters"],
+           f"SpecAugment.forward calls {seq_f}", rel, fwd.line)
+    for c in own_calls(fwd.node):
+        if isinstance(c.func, ast.Attribute) and c.func.attr == "draw_parameters":
+            col.ob("G1", "S1", f"{rel}::SpecAugment.forward::draw_parameters(feats, lengths)", [u(a) for a in c.args] == ["feats", "lengths"],
+                   f"draw_parameters called with {[u(a) for a in c.args]}", rel, c.lineno)
+        if isinstance(c.func, ast.Attribute) and c.func.attr == "apply_parameters":
+            col.ob("G1", "S1", f"{rel}::SpecAugment.forward::apply_parameters(feats, params, lengths)",
+                   len(c.args) == 3 and u(c.args[0]) == "feats" and u(c.args[2]) == "lengths",
+                   f"apply_parameters called with {[u(a) for a in c.args]}", rel, c.lineno)
+
+    # ---- S2 parameter tuple: slot roles agree where drawn and where applied ---------------------------------------
+    rdd = ReachingDefs(draw.node)
+    ret = [st for st, _ in rdd.return_envs][-1]
+    if not (isinstance(ret.value, ast.Tuple) and len(ret.value.elts) == 8):
+        raise AnalysisError("C08: draw_parameters does not return an 8-tuple")
+    want_src = [("max_time_warp", "max_freq_warp"), ("max_time_warp", "max_freq_warp"), ("max_freq_warp", "max_time_warp"),
+                ("max_freq_warp", "max_time_warp"), ("max_time_mask", "max_freq_mask"), ("max_time_mask", "max_freq_mask"),
+                ("max_freq_mask", "max_time_mask"), ("max_freq_mask", "max_time_mask")]
+    slot_ok = []
+    for i, e in enumerate(ret.value.elts):
+        der = rdd.derives(e, value_flow=True)
+        ps = der.params()
+        slot_ok.append(want_src[i][0] in ps and want_src[i][1] not in ps)
+    col.ob("G2", "S2", f"{rel}::spec_augment_draw_parameters::slot-sources", all(slot_ok),
+           f"returned slots derive from the expected limits: {slot_ok} for (time warp x2, freq warp x2, time mask x2, freq "
+           f"mask x2)", rel, ret.lineno, sample=[u(e) for e in ret.value.elts])
+    # start is drawn given the width (start slot derives from the width slot) for masks
+    for (s_i, w_i, tag) in ((4, 5, "time"), (6, 7, "freq")):
+        ds = rdd.derives(ret.value.elts[s_i], value_flow=True)
+        wn = u(ret.value.elts[w_i])
+        col.ob("G2", "S2", f"{rel}::spec_augment_draw_parameters::{tag}-mask-(start, width)-order", any(d.name == wn for d in ds.defs),
+               f"slot {s_i} (start) does not depend on slot {w_i} (width): the pair is in (width, start) order or the start "
+               f"ignores the drawn width (the mask could leave the valid range)", rel, ret.lineno)
+    rda = ReachingDefs(app.node)
+    unp = [n for n in own_nodes(app.node) if isinstance(n, ast.Assign) and isinstance(n.targets[0], ast.Tuple)
+           and len(n.targets[0].elts) == 8 and u(n.value) == "params"]
+    if len(unp) != 1:
+        raise AnalysisError("C08: apply_parameters does not unpack the 8-tuple")
+    names = [u(t) for t in unp[0].targets[0].elts]
+    def shape_names(f):
+        for n in own_nodes(f.node):
+            if isinstance(n, ast.Assign) and isinstance(n.targets[0], ast.Tuple) and u(n.value) == "feats.shape" and len(n.targets[0].elts) == 3:
+                return [u(t) for t in n.targets[0].elts]
+        raise AnalysisError(f"C08: N, T, F = feats.shape not found in {f.qualname}")
+    _, Ta, Fa = shape_names(app)
+    warps = sorted([c for c in own_calls(app.node) if call_name(c) == "warp_1d_grid"], key=lambda c: c.lineno)
+    okw = len(warps) == 2 and [u(a) for a in warps[0].args[:2]] == names[0:2] and [u(a) for a in warps[1].args[:2]] == names[2:4] \
+        and u(warps[0].args[3]) == Ta and u(warps[1].args[3]) == Fa and u(warps[0].args[2]) == "lengths"
+    col.ob("G2", "S2", f"{rel}::spec_augment_apply_parameters::warp-slots", okw,
+           f"warps use {[[u(a) for a in c.args[:4]] for c in warps]}; expected (slot0, slot1, lengths, T) for time and "
+           f"(slot2, slot3, F.., F) for frequency", rel, app.line)
+    # interval masks: i >= start & i < start + width, over T with slots (4,5), over F with slots (6,7)
+    mask_ok = {}
+    for n in own_nodes(app.node):
+        if isinstance(n, ast.Assign) and isinstance(n.value, ast.BinOp) and isinstance(n.value.op, ast.BitAnd) \
+                and all(isinstance(x, ast.Compare) for x in (n.value.left, n.value.right)):
+            l, r = n.value.left, n.value.right
+            st = u(_Strip().visit(copy.deepcopy(l.comparators[0])))
+            en = r.comparators[0]
+            en_name = u(_Strip().visit(copy.deepcopy(en)))
+            end_def = [d.value for d in rda.defs if d.name == en_name and d.kind == "assign"]
+            okshape = isinstance(l.ops[0], ast.GtE) and isinstance(r.ops[0], ast.Lt) and u(l.left) == u(r.left)
+            for (s_i, w_i, tag) in ((4, 5, "time"), (6, 7, "freq")):
+                if st == names[s_i]:
+                    mask_ok[tag] = okshape and len(end_def) == 1 and u(end_def[0]) == f"{names[s_i]} + {names[w_i]}"
+    col.ob("G12", "S2", f"{rel}::spec_augment_apply_parameters::interval-masks", mask_ok == {"time": True, "freq": True},
+           f"interval masks (index >= start & index < start + width) built from the right slots: {mask_ok}", rel, app.line,
+           sample=mask_ok)
+
+    # ---- S3 evaluation mode returns the input -----------------------------------------------------------------------
+    for f, test in ((sa, "not training"), (fwd, "not self.training")):
+        pm = parent_map(f.node)
+        rets = [n for n in own_nodes(f.node) if isinstance(n, ast.Return) and any(u(t) == test and pol for t, pol in guards_of(pm, n))]
+        rd_ = ReachingDefs(f.node)
+        ok = len(rets) == 1 and u(rets[0].value) == "feats" and all(d.kind == "param" for d in rd_.defs_of(rets[0].value))
+        col.ob("G9", "S3", f"{rel}::{f.qualname}::eval-identity", ok,
+               f"in evaluation mode {f.qualname} does not return the parameter `feats` itself", rel, f.line)
+    c = [c for c in own_calls(fwd.node)]
+    # ---- S4 masking only touches masked cells --------------------------------------------------------------------
+    def ev(n):
+        if isinstance(n, ast.Call):
+            cn = call_name(n)
+            if cn.endswith("grid_sample"):
+                return "RESAMPLE"
+            if isinstance(n.func, ast.Attribute) and n.func.attr == "masked_fill":
+                return f"FILL({u(n.args[1]) if len(n.args) > 1 else '?'})"
+        if isinstance(n, ast.Assign) and any(u(t) == "new_feats" for t in n.targets) and not isinstance(n.value, ast.Call):
+            return "ASSIGN(" + u(n.value) + ")"
+        return None
+
+    # the output variable: what the function returns
+    rret = [st for st, _ in rda.return_envs][-1]
+    outv = u(rret.value)
+
+    def ev2(n):
+        if isinstance(n, ast.Assign) and any(u(t) == outv for t in n.targets):
+            v = n.value
+            if isinstance(v, ast.Name):
+                return f"ALIAS({v.id})"
+            txt = u(v)
+            if "grid_sample" in txt:
+                return "RESAMPLE"
+            if isinstance(v, ast.Call) and isinstance(v.func, ast.Attribute) and v.func.attr == "masked_fill" and u(v.func.value) == outv:
+                return f"FILL({u(v.args[1])})"
+            return "OTHER(" + txt[:40] + ")"
+        return None
+
+    paths = PathEnumerator(ev2, exc_edges=False).paths(app.node.body)
+    col.floor("apply_paths", len(paths), 6)
+    bad = None
+    sigs = set()
+    for p in paths:
+        labs = p.labels()
+        sigs.add(tuple(labs))
+        if not labs or labs[0] != "ALIAS(feats)":
+            bad = bad or (labs, "the output does not start as the input itself")
+        rest = labs[1:]
+        if any(l.startswith("OTHER") or l.startswith("ALIAS") for l in rest):
+            bad = bad or (labs, "the features are modified by something other than resampling / masked fill")
+        if "RESAMPLE" in rest and rest.index("RESAMPLE") != 0:
+            bad = bad or (labs, "a mask is applied before the resampling (masked cells would be smeared)")
+        if any(l.startswith("FILL") and l != "FILL(0.0)" for l in rest):
+            bad = bad or (labs, "masked cells are not filled with 0.0")
+        if sum(1 for l in rest if l.startswith("FILL")) > 1:
+            bad = bad or (labs, "more than one fill on a path")
+    col.ob("G10", "S4", f"{rel}::spec_augment_apply_parameters::only-resample-then-one-zero-fill", bad is None,
+           f"{bad[1]}: {bad[0]}" if bad else "", rel, app.line, sample=sorted(map(list, sigs))[:6])
+    # resampling happens only when a warp was drawn (guard derives from the warp slots being non-empty)
+    pma = parent_map(app.node)
+    gs = [n for n in own_nodes(app.node) if isinstance(n, ast.Call) and call_name(n).endswith("grid_sample")]
+    okg = len(gs) == 1
+    if okg:
+        tests = [t for t, pol in guards_of(pma, gs[0]) if pol]
+        okg = bool(tests) and isinstance(tests[-1], ast.Name)
+        if okg:
+            flag = tests[-1].id
+            sets = [n for n in own_nodes(app.node) if isinstance(n, ast.Assign) and u(n.targets[0]) == flag and u(n.value) == "True"]
+            okg = len(sets) == 2 and all(any(names[i] in u(t) for t, pol in guards_of(pma, s) for i in (0, 1, 2, 3)) for s in sets)
+    col.ob("G10", "S4", f"{rel}::spec_augment_apply_parameters::resample-only-if-a-warp-was-drawn", okg,
+           "grid_sample is not guarded by a flag that is set exactly where a non-empty warp parameter is present (without a "
+           "warp every unmasked entry must stay bit-identical)", rel, app.line)
+    gk = {k.arg: u(k.value) for c_ in gs for k in c_.keywords}
+    col.ob("G13", "S4", f"{rel}::spec_augment_apply_parameters::border-clamped-bilinear", gk.get("padding_mode") == "'border'" and gk.get("mode") == "'bilinear'"
+           and gk.get("align_corners") == "False", f"grid_sample options are {gk}", rel, app.line, sample=gk)
+
+    # ---- S5 time <-> frequency sibling symmetry and draw forms ---------------------------------------------------------
+    def defs_of(f, name):
+        return [n.value for n in own_nodes(f.node) if isinstance(n, ast.Assign) and any(u(t) == name for t in n.targets)]
+
+    dn = [u(e) for e in ret.value.elts]  # drawn slot names: w_0 w v_0 v t_0 t f_0 f
+    # find the half-range variables: the name multiplied by 2 inside the centre draw
+    def half(centre_name):
+        vs = defs_of(draw, centre_name)
+        for v in vs:
+            for x in ast.walk(v):
+                if isinstance(x, ast.BinOp) and isinstance(x.op, ast.Mult) and u(x.left) == "2" and isinstance(x.right, ast.Name):
+                    return x.right.id
+        return None
+    Wn, Vn = half(dn[1]) or half(dn[0]), half(dn[3]) or half(dn[2])
+    if not Wn or not Vn:
+        raise AnalysisError("C08: half-range variables of the warp draws not found")
+    _, Td, Fd = shape_names(draw)
+    renT = {dn[0]: "C0", dn[1]: "C", dn[4]: "S0", dn[5]: "S", Wn: "H", "lengths": "L", Td: "L", "max_time_warp": "MAXW",
+            "max_time_mask": "MAXM"}
+    renF = {dn[2]: "C0", dn[3]: "C", dn[6]: "S0", dn[7]: "S", Vn: "H", Fd: "L", "max_freq_warp": "MAXW", "max_freq_mask": "MAXM"}
+    # 1 - eps and eps, by definition (eps = _get_tensor_eps(feats); omeps = 1 - eps)
+    epsn = next((u(n.targets[0]) for n in own_nodes(draw.node) if isinstance(n, ast.Assign) and isinstance(n.value, ast.Call)
+                 and call_name(n.value) == "_get_tensor_eps"), None)
+    if epsn:
+        renT[epsn] = renF[epsn] = "EPS"
+
+    def one(f, name, ren):
+        vs = [v for v in defs_of(f, name) if "torch.empty(0)" not in u(v)]
+        return _canon(vs[0], ren) if len(vs) == 1 else None
+
+    pairs = {
+        "warp-half-range": (one(draw, Wn, renT), one(draw, Vn, renF)),
+        "warp-centre": (one(draw, dn[0], renT), one(draw, dn[2], renF)),
+        "warp-shift": (one(draw, dn[1], renT), one(draw, dn[3], renF)),
+        "mask-start": (one(draw, dn[4], renT), one(draw, dn[6], renF)),
+    }
+    for k, (a, b) in pairs.items():
+        col.ob("G12", "S5", f"{rel}::spec_augment_draw_parameters::time~freq::{k}", a is not None and a == b,
+               f"time and frequency draws differ under the renaming t<->f, w<->v, lengths/T<->F: time `{a}` vs freq `{b}` (a "
+               f"one-sided off-by-one or bound in either dimension)", rel, draw.line, sample=dict(time=a, freq=b))
+    # expected forms (from which the bounds of C08 follow by arithmetic): width = long(RAND * (cap + 1 - eps)) <= cap;
+    # start = long(RAND * (L - width + 1 - eps)) <= L - width; centre = RAND * (L - 2H) + H in [H, L - H); shift = RAND*2H - H
+    omeps = [n for n in own_nodes(draw.node) if isinstance(n, ast.Assign) and epsn and u(n.value) == f"1 - {epsn}"]
+    om = u(omeps[0].targets[0]) if omeps else None
+    forms = {
+        "warp-centre": f"((RAND)*(L + -2*H)) + H",
+        "warp-shift": None,
+    }
+    cexp = pairs["warp-centre"][0]
+    okc = cexp is not None and re.sub(r"\s", "", cexp) in ("H+L*RAND+-2*H*RAND", "H+-2*H*RAND+L*RAND")
+    col.ob("G12", "S5", f"{rel}::spec_augment_draw_parameters::form::warp-centre=RAND*(L-2H)+H", okc,
+           f"the warp centre is drawn as `{cexp}`; expected RAND * (L - 2H) + H, which lies in [H, L - H)", rel, draw.line, sample=cexp)
+    sexp = pairs["warp-shift"][0]
+    oks = sexp is not None and re.sub(r"\s", "", sexp) in ("-H+2*H*RAND",)
+    col.ob("G12", "S5", f"{rel}::spec_augment_draw_parameters::form::warp-shift=RAND*2H-H", oks,
+           f"the warp shift is drawn as `{sexp}`; expected RAND * 2H - H in [-H, H)", rel, draw.line, sample=sexp)
+    st_ = pairs["mask-start"][0]
+    okst = st_ is not None and om is not None and re.sub(r"\s", "", st_) in (
+        f"(L*RAND+-RAND*S+RAND*{om}).long()", f"(L*RAND+RAND*{om}+-RAND*S).long()", f"(-RAND*S+L*RAND+RAND*{om}).long()")
+    col.ob("G12", "S5", f"{rel}::spec_augment_draw_parameters::form::mask-start=long(RAND*(L-width+1-eps))", okst,
+           f"the mask start is drawn as `{st_}`; expected long(RAND * (L - width + 1 - eps)), so that start + width <= L", rel,
+           draw.line, sample=st_)
+    # widths: long(RAND * (cap + 1 - eps)); caps: time = floor(min(L * proportion, max_time_mask)), freq = min(max_freq_mask, F)
+    wt = [v for v in defs_of(draw, dn[5]) if "torch.empty(0)" not in u(v)]
+    wf = [v for v in defs_of(draw, dn[7]) if "torch.empty(0)" not in u(v)]
+    capn = None
+    okwf = okwt = False
+    if wf and wt and om:
+        cf = _canon(wf[0], {})
+        m = re.fullmatch(r"\(RAND\*(\w+) \+ RAND\*" + om + r"\)\.long\(\)|\((\w+)\*RAND \+ RAND\*" + om + r"\)\.long\(\)", cf.replace("*", "*"))
+        okwf = bool(re.fullmatch(r"\((\w+)\*RAND \+ RAND\*" + om + r"\)\.long\(\)", cf)) or bool(
+            re.fullmatch(r"\(RAND\*" + om + r" \+ RAND\*(\w+)\)\.long\(\)", cf)) or bool(re.fullmatch(r"\(RAND\*(\w+) \+ RAND\*" + om + r"\)\.long\(\)", cf))
+        ct = _canon(wt[0], {})
+        okwt = ct.startswith("(") and ".long().masked_fill(" in ct and "RAND" in ct and om in ct
+    col.ob("G12", "S5", f"{rel}::spec_augment_draw_parameters::form::mask-width=long(RAND*(cap+1-eps))", okwf and okwt,
+           f"mask widths are drawn as time `{_canon(wt[0], {}) if wt else None}` / freq `{_canon(wf[0], {}) if wf else None}`; "
+           f"expected long(RAND * (cap + 1 - eps)) (and zeroed beyond the allowed number of time masks)", rel, draw.line)
+    capnames = set()
+    for v in wt + wf:
+        for x in ast.walk(v):
+            if isinstance(x, ast.BinOp) and isinstance(x.op, ast.Add) and isinstance(x.left, ast.Name) and u(x.right) == om:
+                capnames.add(x.left.id)
+    caps = [v for cn_ in sorted(capnames) for v in defs_of(draw, cn_)]
+    capt = [_canon(v, {}) for v in caps]
+    okcap = len(caps) == 2 and any("min(L" in c.replace("lengths", "L") or "min(lengths*max_time_mask_proportion" in c.replace(" ", "") for c in capt) \
+        and any(c.replace(" ", "") in ("min(max_freq_mask,F)", "min(F,max_freq_mask)") for c in capt)
+    txtcaps = " | ".join(capt)
+    okcap = len(caps) == 2 and "max_time_mask_proportion" in txtcaps and "max_time_mask" in txtcaps and ".floor()" in txtcaps \
+        and any(c.replace(" ", "") in (f"min(max_freq_mask,{Fd})", f"min({Fd},max_freq_mask)") for c in capt)
+    col.ob("G12", "S5", f"{rel}::spec_augment_draw_parameters::caps", okcap,
+           f"mask-width caps are {capt}; expected floor(min(lengths * proportion, max_time_mask)) and min(max_freq_mask, F)",
+           rel, draw.line, sample=capt)
+    numname = None
+    for v in wt:
+        for x in ast.walk(v):
+            if isinstance(x, ast.Compare) and isinstance(x.ops[0], ast.LtE) and "torch.arange" in u(x.comparators[0]):
+                nn_ = _Strip().visit(copy.deepcopy(x.left))
+                numname = u(nn_)
+    nums = [_canon(v, {}) for v in defs_of(draw, numname)] if numname else []
+    col.ob("G12", "S5", f"{rel}::spec_augment_draw_parameters::count-cap", len(nums) == 1 and "num_time_mask_proportion" in nums[0]
+           and "num_time_mask" in nums[0] and ".floor()" in nums[0],
+           f"the number of time masks is capped by {nums}; expected floor(min(lengths * proportion, num_time_mask))", rel, draw.line)
+    # apply: interval masks symmetric
+    plumbing(ctx, "S1")
+    return dict(
+        explanation=(
+            "Decides for C08: (S1) forwarding of all SpecAugment / warp Modules and of the ten configuration values through "
+            "spec_augment; SpecAugment.forward composes draw + apply; (S2) the 8-slot parameter tuple has the same slot roles "
+            "where drawn (each slot derives from its own limit, start drawn given width) and where applied (warp slots, "
+            "interval masks index >= start & index < start + width); (S3) evaluation mode returns the input object; (S4) on "
+            "every path the features are only resampled (only if a warp was drawn, before masking, border-clamped bilinear) "
+            "and then filled once with the literal 0.0 under the mask; (S5) time and frequency draws are alpha-equivalent "
+            "and have the forms RAND*(L-2H)+H, RAND*2H-H, long(RAND*(cap+1-eps)), long(RAND*(L-width+1-eps)) with the "
+            "documented caps - from which the drawn-parameter bounds follow by real arithmetic. NOT decided: warp "
+            "monotonicity / range / finiteness (spline and grid_sample numerics), output shape."),
+        decided=["S1", "S2", "S3", "S4", "S5"],
+        not_decided=["warp monotone, within half a frame of the ends, finite", "interval masks cover exactly the drawn bands at tensor level", "output shape"],
+        assumptions=["torch.rand in [0, 1)", ".long() truncates", "real-arithmetic idealisation of the eps tricks"],
+    )
+
+
+def _mutants():
+    from selftest.mutate import Mutant as M
+    I = "_img.py"
+    return [
+        M("apply-slots-swapped", I, "w_0, w, v_0, v, t_0, t, f_0, f = params", "w_0, w, v_0, v, t, t_0, f_0, f = params", "G"),
+        M("draw-return-swapped", I, "return (w_0, w, v_0, v, t_0, t, f_0, f)", "return (w_0, w, v_0, v, f_0, f, t_0, t)", "slot-sources"),
+        M("freq-start-ignores-width", I, "f_0 = (torch.rand([N, num_freq_mask], device=device) * (F - f + omeps)).long()", "f_0 = (torch.rand([N, num_freq_mask], device=device) * (F + omeps)).long()", "G"),
+        M("time-start-off-by-one", I, "* (lengths.unsqueeze(1) - t + omeps)).long()", "* (lengths.unsqueeze(1) - t + 1 + omeps)).long()", "time~freq::mask-start"),
+        M("freq-centre-bound", I, "v_0 = torch.rand([N], device=device) * (F - 2 * V) + V", "v_0 = torch.rand([N], device=device) * (F - V) + V", "time~freq::warp-centre"),
+        M("time-shift-one-sided", I, "w = torch.rand([N], device=device) * (2 * W) - W", "w = torch.rand([N], device=device) * (2 * W)", "time~freq::warp-shift"),
+        M("eval-clone", I, "if not training:\n        return feats", "if not training:\n        return feats.clone()", "eval-identity"),
+        M("layer-eval-augments", I, "if not self.training:\n            return feats", "if False:\n            return feats", "eval-identity"),
+        M("fill-nonzero", I, "new_feats = new_feats.masked_fill(fmask, 0.0)", "new_feats = new_feats.masked_fill(fmask, 1e-05)", "only-resample-then-one-zero-fill"),
+        M("mask-before-warp", I, "new_feats = feats\n", "new_feats = feats * 1.0\n", "only-resample-then-one-zero-fill"),
+        M("always-resample", I, "if do_warp:\n        if time_grid is None:", "if True:\n        if time_grid is None:", "resample-only-if-a-warp-was-drawn"),
+        M("padding-zeros", I, "padding_mode='border'", "padding_mode='zeros'", "border-clamped-bilinear"),
+        M("interval-inclusive-end", I, "tmask = (tmask >= t_0.unsqueeze(1)) & (tmask < t_1.unsqueeze(1))", "tmask = (tmask >= t_0.unsqueeze(1)) & (tmask <= t_1.unsqueeze(1))", "interval-masks"),
+        M("spec-augment-args-swapped", I, "max_time_mask, max_freq_mask, max_time_mask_proportion, num_time_mask, num_time_mask_proportion, num_freq_mask, lengths)\n    return spec_augment_apply_parameters",
+          "max_freq_mask, max_time_mask, max_time_mask_proportion, num_time_mask, num_time_mask_proportion, num_freq_mask, lengths)\n    return spec_augment_apply_parameters", "G1"),
+        M("freq-cap-dropped", I, "max_ = min(max_freq_mask, F)", "max_ = max_freq_mask", "caps"),
+        M("twin:rename-grid", I, "time_grid", "tgrid", "", -1, twin=True),
+    ]
+
+
+def selftest(ctx: Ctx):
+    from selftest.mutate import run_selftest
+    return run_selftest("C08", ctx.pkg.repo, _mutants(), floor=13)
+
+
+MANIFEST = dict(
+    level_text=(
+        "Static analysis (no execution): forwarding of the ten transposable configuration values, slot-role agreement of "
+        "the 8-slot parameter tuple between the drawing and the applying function, evaluation-mode identity, a path rule on "
+        "spec_augment_apply_parameters (only resampling - and only if a warp was drawn - followed by one masked fill with the "
+        "literal 0.0), and the time<->frequency sibling symmetry plus the algebraic forms of the bounded draws in polynomial "
+        "normal form, from which the drawn-parameter bounds follow by real arithmetic. Necessary conditions of C08; warp "
+        "numerics (spline, grid_sample) are not decided."),
+    level_note="Trusted: python ast; torch.rand in [0,1), .long() truncation; real-arithmetic idealisation of the eps tricks.",
+    technique="static analysis: sibling alpha-equivalence in polynomial normal form, slot-role dataflow, path typestate, eval-path identity",
+    design_ref="DESIGN.md section 4 C08",
+)
